@@ -218,8 +218,13 @@ def type_expect(sp, position):
             exp.update(tag='type', name='utf8')
         return exp
     if kind == 'strv':
-        # GStrv is GLib's typedef of gchar**: a returned one is a returned char**
-        if position == 'ret' and d == 0:
+        # GStrv is GLib's alias for a NULL-terminated array of strings (statement: "GLib
+        # aliases to their ... types"); upstream's expected Regress GIR shows GStrv-typed
+        # parameters (signals sig-with-strv*) as <array><type name="utf8"/></array>, i.e. the
+        # mapping is not restricted to return values.  A GStrv left unresolved is no
+        # canonical introspection type.  Pointers to GStrv and GStrv as the element of a
+        # fixed array field: not fixed.
+        if d == 0 and position in ('ret', 'param', 'field'):
             exp.update(tag='array', name=ABSENT, elem_name='utf8')
         return exp
     if kind == 'container':
@@ -371,6 +376,18 @@ ROLE_ALIASES = {
 }
 ALIAS_TARGETS = [('FooCbAlias', 'FooCb'), ('FooReadyCb', 'GAsyncReadyCallback'), ('FooFreeFunc', 'GDestroyNotify'),
                  ('FooFreeFunc2', 'FooFreeFunc'), ('FooPtr', 'gpointer')]
+
+def own_user_data_closure(host, role, name, plain):
+    """A callback type's own user-data parameter.  doc ("Support for GObject closures"):
+    "(closure) ... is placed on a callback typedef's user data argument"; without annotation,
+    upstream's expected GIRs mark every gpointer parameter named user_data of a <callback>
+    (typedef or function-pointer field) with closure=<its own index> (calibrated, 4 of 4).
+    The rule is by name, so it does not depend on the position or on a trailing GError**
+    (the index is the one in the emitted parameter list).  -> True (MUST own index) / None"""
+    if host in ('cb', 'vfunc') and role == 'U' and name == 'user_data' and plain:
+        return True
+    return None
+
 
 ROLE_TYPES = {
     'C': ('FooCb', 'Cb'), 'A': ('GAsyncReadyCallback', 'Gio.AsyncReadyCallback'),
